@@ -16,6 +16,26 @@
 //!   `tokio::io::duplex` streams whose far end is a real `tonic::transport::Server` connection,
 //!   reached through a cable task the script can cut (`d`); `c` = one unary call through
 //!   `tonic::client::Grpc`.  Virtual time; every op is followed by a quiescence sleep.
+//! * `net <tcp|uds> <L|E> <script>` — the standard entry points `Endpoint::connect()` (`E`) /
+//!   `connect_lazy()` (`L`) against a real socket: a loopback TCP port (tonic's `HttpConnector`
+//!   path) or a unix socket (`unix:` endpoint, tonic's `UdsConnector`).  Script letters: `u` a
+//!   server starts listening (a new generation), `k` it goes away (listener closed, connections
+//!   dropped; `x`: and the socket file is unlinked), `b` the channel is built (exactly once,
+//!   before any call), `c` one unary call.  Real time; a closed TCP port is kept reserved by a
+//!   bound, non-listening socket so that nothing else can take it.
+//!   Further e2e ops: `z`/`n`/`s`/`l` a call with `Request::set_timeout` of 0 / 1 ns / 20 ms / 1 h,
+//!   `i`/`j` a unary / server-streaming call that is in flight when the script cuts the cable,
+//!   `p` two callers at the same moment.  `e2d <L|E> <opts> <outcomes> <ops>` is `e2e` on an
+//!   Endpoint with options: `z`/`n`/`s`/`l` = `Endpoint::timeout`, `q` = `concurrency_limit(1)`,
+//!   `r` = `rate_limit(1, 80 ms)`.
+//! * `cls <chain>` — `Status::from_error` on an error whose `source()` chain is built from the
+//!   tokens (`W<id>` user error type, `I.<Kind>` io::Error, `C` tonic::ConnectError, `S<code>`
+//!   Status, `T` TimeoutExpired, `H2.<reason>` h2::Error, `L` a rustls error, `Yh` the error of a
+//!   real hyper HTTP/2 handshake on a closed transport), joined by `>` outermost first.  Observed:
+//!   the code, and the chain as an independent `downcast_ref` walk sees it.
+//! * `e2x <L|E> <t|n> <cause>` — `Endpoint::connect_with_connector[_lazy]` (with / without a
+//!   connect timeout) whose connector fails every attempt with the error `<cause>`; two calls
+//!   (lazy) or the build (eager); observed: code, attempts, and the walk of the error the caller got.
 use crate::common::*;
 use std::collections::VecDeque;
 use std::future::Future;
@@ -131,8 +151,110 @@ pub fn generate(tier: &str, rng: &mut Rng) -> Vec<String> {
         "e2n L XS cc",
         "e2n E X c",
         "e2n E SFXS dccc",
+        // calls that carry a deadline. A zero effective deadline on the call whose poll_ready
+        // ran a failing attempt: that call takes the parked connect error, the next one makes a
+        // fresh attempt (seed C14c: a fail-fast check in GrpcTimeout left the error parked)
+        "e2e L FS zc",
+        "e2e L FS zcc",
+        "e2e E SFS dzcc",
+        "e2e L FFS zzc",
+        "e2e L S zc",
+        "e2e E SS zdzc",
+        "e2e L S ncslc",
+        "e2n L FS zc",
+        "e2d L z FS cc",
+        "e2d E z SFS cdcc",
+        "e2d L z S ccc",
+        "e2d L n FS cc",
+        "e2d E s SFS cdcc",
+        "e2d L l FXTS zczc",
+        // the peer drops the connection while a call is in flight (unary: request delivered, no
+        // response yet; server-streaming: in the middle of the response body): the call ends
+        // with an error of its own, the next call reconnects, nothing is replayed
+        "e2e L SS icc",
+        "e2e L SS jcc",
+        "e2e E SS icc",
+        "e2e E SFS icc",
+        "e2e E SFS jcc",
+        "e2e L FS icc",
+        "e2e L SSS ijc",
+        "e2e L SSSS ijij",
+        "e2n E SXS icc",
+        "e2d L s SS icc",
+        // two callers at the same moment: the channel queues them; the first gets the failure of
+        // the attempt it triggered, the second triggers its own attempt
+        "e2e L FS p",
+        "e2e L FF pc",
+        "e2e L S pp",
+        "e2e L fS pc",
+        "e2e E SFS dpc",
+        "e2e E SFFS dpp",
+        "e2e L XS p",
+        "e2n L FS p",
+        // Endpoint::concurrency_limit(1) / rate_limit: a failed attempt, a call dying in flight or
+        // two callers at once must not leave the permit taken (the channel would be wedged)
+        "e2d L q FS cc",
+        "e2d L q FFS ccc",
+        "e2d L q FS pc",
+        "e2d L q SS ipc",
+        "e2d L q SFS cdpp",
+        "e2d E q SS jpc",
+        "e2d E q F c",
+        "e2d L r FS pcp",
+        "e2d L qr SFS cdccp",
+        "e2d L qs FS zcp",
     ] {
         out.push(c.to_string());
+    }
+
+    // ---- long histories: counters must not matter (mutant: give up after 10 consecutive
+    // failures). k failed attempts in a row, then the peer is back; fail/die alternation ----
+    let longs: &[usize] = if thorough { &[11, 12, 40, 200, 1000] } else { &[12, 40, 200] };
+    for &k in longs {
+        for m in modes {
+            // unit: every failed attempt is `o` (connector ready) `e` (attempt fails); lazy:
+            // each failure is parked and handed to one call; eager: the first one fails the build
+            let env = format!("{}ooo", "oe".repeat(k));
+            let ops = "rc".repeat(k + 2);
+            out.push(format!("unit {} {} {}", m, env, ops));
+            out.push(format!("sess {} {} {}", m, env, k + 2));
+            // an established connection first, then k failed reconnects, then the peer is back
+            let env = format!("ooo{}{}ooo", "e", "oe".repeat(k));
+            out.push(format!("unit {} {} {}", m, env, "rc".repeat(k + 3)));
+            out.push(format!("sess {} {} {}", m, env, k + 3));
+            if k <= 200 {
+                // e2e: k refused attempts, then served
+                let head = if m == "E" { "S" } else { "" };
+                let drop = if m == "E" { "d" } else { "" };
+                out.push(format!("e2e {} {}{}S {}{}", m, head, "F".repeat(k), drop, "c".repeat(k + 2)));
+                out.push(format!("e2n {} {}{}S {}{}", m, head, "F".repeat(k), drop, "c".repeat(k + 2)));
+                // every kind of failure, delayed ones included
+                let mix: String = "FXTfxt".chars().cycle().take(k).collect();
+                out.push(format!("e2e {} {}{}S {}{}", m, head, mix, drop, "c".repeat(k + 2)));
+            }
+        }
+    }
+    // alternating fail/die: connect, serve, die, failed reconnect, connect, … for n rounds
+    let rounds: &[usize] = if thorough { &[12, 100, 300] } else { &[12, 100] };
+    for &n in rounds {
+        for m in modes {
+            let outs = "SF".repeat(n);
+            let ops = format!("c{}", "dcc".repeat(n));
+            out.push(format!("e2e {} {}S {}", m, outs, ops));
+            out.push(format!("e2n {} {}S {}", m, outs, ops));
+            // the same at the state-machine level: ooo (connect+ready) then per round: e (dead)
+            // o e (reconnect fails) / o o o (reconnect works)
+            let env = format!("ooo{}", "eoeooo".repeat(n));
+            out.push(format!("unit {} {} {}", m, env, "rc".repeat(2 * n + 1)));
+            out.push(format!("sess {} {} {}", m, env, 2 * n + 1));
+            // in-flight deaths in a row
+            if n <= 100 {
+                out.push(format!("e2d {} q {} {}", m, "SF".repeat(n) + "S", "ic".repeat(n) + "c"));
+                out.push(format!("e2d {} q {} {}", m, "F".repeat(n) + "S", "p".repeat(n / 2 + 1) + "c"));
+                out.push(format!("e2e {} {} {}", m, "S".repeat(n + 2), "i".repeat(n) + "c"));
+                out.push(format!("e2e {} {} {}", m, "SF".repeat(n) + "S", "ic".repeat(n) + "c"));
+            }
+        }
     }
 
     // ---- unit: exhaustive small scope ----
@@ -267,6 +389,107 @@ pub fn generate(tier: &str, rng: &mut Rng) -> Vec<String> {
             }
         }
     }
+    // calls with deadlines and calls that die in flight, at every script position: ops over
+    // {c, z, d, i} (and j, n, s, l in random scripts below) × outcomes over {F,S}
+    let ops_max = if thorough { 6 } else { 5 };
+    for m in modes {
+        for ops in all_strings_upto(&['c', 'z', 'd', 'i'], ops_max) {
+            if !(ops.contains('z') || ops.contains('i')) {
+                continue;
+            }
+            let calls = ops.chars().filter(|c| *c != 'd').count();
+            let attempts = calls + if m == "E" { 1 } else { 0 };
+            if !thorough && ops.len() == ops_max && attempts > 4 {
+                // keep quick affordable: longest scripts only with the three standard outcome lists
+                let all_s: String = "S".repeat(attempts);
+                let alt: String = (0..attempts).map(|i| if i % 2 == 0 { 'F' } else { 'S' }).collect();
+                let alt2: String = (0..attempts).map(|i| if i % 2 == 0 { 'S' } else { 'F' }).collect();
+                for outs in [all_s, alt, alt2] {
+                    out.push(format!("e2e {} {} {}", m, tok(&outs), tok(&ops)));
+                }
+                continue;
+            }
+            for outs in all_strings(&['F', 'S'], attempts) {
+                out.push(format!("e2e {} {} {}", m, tok(&outs), tok(&ops)));
+            }
+        }
+    }
+    // concurrent callers at every script position, with and without the limit layers
+    let ops_max = if thorough { 5 } else { 4 };
+    for m in modes {
+        for ops in all_strings_upto(&['c', 'p', 'd', 'i'], ops_max) {
+            if !ops.contains('p') {
+                continue;
+            }
+            let calls: usize = ops.chars().map(|c| match c { 'p' => 2, 'd' => 0, _ => 1 }).sum();
+            let attempts = calls + if m == "E" { 1 } else { 0 };
+            if attempts > 6 {
+                continue;
+            }
+            for outs in all_strings(&['F', 'S'], attempts) {
+                out.push(format!("e2e {} {} {}", m, tok(&outs), tok(&ops)));
+                if ops.len() < ops_max || thorough {
+                    let opt = ["q", "r", "qr"][outs.len() % 3];
+                    out.push(format!("e2d {} {} {} {}", m, opt, tok(&outs), tok(&ops)));
+                }
+            }
+        }
+    }
+    // the limit layers under plain fault scripts
+    let ops_max = if thorough { 6 } else { 4 };
+    for m in modes {
+        for opt in ["q", "r", "qr"] {
+            for ops in all_strings_upto(&['c', 'd', 'i'], ops_max) {
+                let calls = ops.chars().filter(|c| *c != 'd').count();
+                if calls == 0 {
+                    continue;
+                }
+                let attempts = calls + if m == "E" { 1 } else { 0 };
+                for outs in all_strings(&['F', 'S'], attempts) {
+                    out.push(format!("e2d {} {} {} {}", m, opt, tok(&outs), tok(&ops)));
+                }
+            }
+        }
+    }
+    // Endpoint::timeout (channel-wide deadline) × per-call deadlines
+    let ops_max = if thorough { 5 } else { 4 };
+    for m in modes {
+        for et in ["z", "n", "s", "l"] {
+            for ops in all_strings_upto(&['c', 'z', 'd'], ops_max) {
+                if ops.is_empty() {
+                    continue;
+                }
+                let calls = ops.chars().filter(|c| *c != 'd').count();
+                let attempts = calls + if m == "E" { 1 } else { 0 };
+                for outs in all_strings(&['F', 'S'], attempts) {
+                    out.push(format!("e2d {} {} {} {}", m, et, tok(&outs), tok(&ops)));
+                }
+            }
+        }
+    }
+    let n = if thorough { 3000 } else { 300 };
+    for _ in 0..n {
+        let m = *rng.pick(&modes);
+        let olen = rng.range(1, if thorough { 14 } else { 9 }) as usize;
+        let ops = rand_string(
+            rng,
+            &[('c', 4), ('z', 3), ('n', 1), ('s', 1), ('l', 1), ('i', 2), ('j', 2), ('d', 2), ('g', 1), ('p', 2)],
+            olen,
+        );
+        let alen = rng.range(0, olen as u64 + 2) as usize;
+        let outs = match rng.below(2) {
+            0 => rand_string(rng, &[('F', 3), ('S', 4), ('f', 1), ('s', 2)], alen),
+            _ => rand_string(rng, &[('F', 2), ('S', 4), ('X', 1), ('T', 1), ('s', 1), ('x', 1)], alen),
+        };
+        match rng.below(3) {
+            0 => out.push(format!("e2e {} {} {}", m, tok(&outs), tok(&ops))),
+            1 if !(outs.contains('T') || outs.contains('t')) => out.push(format!("e2n {} {} {}", m, tok(&outs), tok(&ops))),
+            _ => {
+                let et = *rng.pick(&["-", "n", "s", "l", "q", "r", "qr", "ql", "rs"]);
+                out.push(format!("e2d {} {} {} {}", m, et, tok(&outs), tok(&ops)));
+            }
+        }
+    }
     // delayed outcomes (Pending paths through the real Buffer / hyper handshake), random long;
     // outcome lists may be shorter than the number of attempts (then: refused)
     let n = if thorough { 4000 } else { 300 };
@@ -290,6 +513,131 @@ pub fn generate(tier: &str, rng: &mut Rng) -> Vec<String> {
             out.push(format!("e2n {} {} {}", m, tok(&outs), tok(&ops)));
         }
     }
+    // ---- net: the standard entry points over real sockets ----
+    // (these run in real time: they are spread over the whole case list at the end so that the
+    // worker threads share them)
+    for c in [
+        // an eager connect to a closed port / a missing or dead unix socket fails at once
+        "net tcp E bc",
+        "net uds E bc",
+        "net tcp E ukbc",
+        "net uds E ukbc",
+        "net uds E uxbc",
+        // a lazy channel, server started later, stopped, started again
+        "net tcp L bcuckcuc",
+        "net uds L bcuckcxcuc",
+        "net tcp E ubckcucc",
+        "net uds E ubcxcucc",
+        "net tcp L ubckuc",
+        "net tcp L bcccuccckcccuc",
+    ] {
+        out.push(c.to_string());
+    }
+    let post_max = if thorough { 5 } else { 3 };
+    for tr in ["tcp", "uds"] {
+        let downs: &[char] = if tr == "uds" { &['k', 'x'] } else { &['k'] };
+        let mut alpha = vec!['c', 'u'];
+        alpha.extend_from_slice(downs);
+        for m in modes {
+            for pre in ["", "u", "uk", "ukuk", "uku"] {
+                if !thorough && pre.len() > 2 {
+                    continue;
+                }
+                for post in all_strings_upto(&alpha, post_max) {
+                    if !post.contains('c') {
+                        continue;
+                    }
+                    out.push(format!("net {} {} {}b{}", tr, m, pre, post));
+                }
+            }
+        }
+    }
+    let n = if thorough { 600 } else { 40 };
+    for _ in 0..n {
+        let tr = *rng.pick(&["tcp", "uds"]);
+        let m = *rng.pick(&modes);
+        let pre = *rng.pick(&["", "u", "uk", "u"]);
+        let len = rng.range(3, 14) as usize;
+        let post = rand_string(rng, &[('c', 5), ('u', 2), ('k', 2), ('x', 1)], len);
+        let post = if tr == "tcp" { post.replace('x', "k") } else { post };
+        out.push(format!("net {} {} {}b{}", tr, m, pre, post));
+    }
+
+    // ---- cls / e2x: how the error of a failed attempt is classified, whatever caused it ----
+    let mut leaves: Vec<String> = IO_KINDS.iter().map(|(n, _)| format!("I.{}", n)).collect();
+    for c in 0..=16 {
+        leaves.push(format!("S{}", c));
+    }
+    for r in 0..=14 {
+        leaves.push(format!("H2.{}", r));
+    }
+    for l in ["T", "L", "W9", "Yh"] {
+        leaves.push(l.to_string());
+    }
+    let wrappers = ["W1", "I.Other", "C", "I.NotFound", "I.PermissionDenied", "I.TimedOut"];
+    let depth = if thorough { 3 } else { 2 };
+    let mut mids: Vec<String> = vec![String::new()];
+    let mut layer: Vec<String> = vec![String::new()];
+    for _ in 0..depth {
+        let mut next = Vec::new();
+        for m in &layer {
+            for w in wrappers {
+                next.push(if m.is_empty() { w.to_string() } else { format!("{}>{}", m, w) });
+            }
+        }
+        mids.extend(next.iter().cloned());
+        layer = next;
+    }
+    for m in &mids {
+        for l in &leaves {
+            if l == "Yh" && m.len() > 8 {
+                continue;
+            }
+            out.push(if m.is_empty() { format!("cls {}", l) } else { format!("cls {}>{}", m, l) });
+        }
+    }
+    // the same causes as the error of a scripted connector, through the whole channel stack
+    let e2x_mids: Vec<&String> = mids.iter().filter(|m| thorough || m.matches('>').count() == 0).collect();
+    for m in modes {
+        for t in ["t", "n"] {
+            for mid in &e2x_mids {
+                for l in &leaves {
+                    // the full product only for the causes the reviewers' mutants are about
+                    let io_cause = l.starts_with("I.") || mid.contains("I.");
+                    if !(thorough || mid.is_empty() || io_cause && (t == "n" || l.len() % 2 == 0)) {
+                        continue;
+                    }
+                    if l == "Yh" && !mid.is_empty() {
+                        continue;
+                    }
+                    let cause = if mid.is_empty() { l.clone() } else { format!("{}>{}", mid, l) };
+                    out.push(format!("e2x {} {} {}", m, t, cause));
+                }
+            }
+        }
+    }
+    spread_real_time_cases(out)
+}
+
+/// Cases that run in real time (sockets, timers) are spread evenly over the list: the runner
+/// gives every worker thread one contiguous slice.
+fn spread_real_time_cases(cases: Vec<String>) -> Vec<String> {
+    let (slow, fast): (Vec<String>, Vec<String>) = cases.into_iter().partition(|c| c.starts_with("net ") || c.starts_with("conc "));
+    if slow.is_empty() {
+        return fast;
+    }
+    let stride = (fast.len() / slow.len()).max(1);
+    let mut out = Vec::with_capacity(fast.len() + slow.len());
+    let mut slow = slow.into_iter();
+    for (i, c) in fast.into_iter().enumerate() {
+        if i % stride == 0 {
+            if let Some(s) = slow.next() {
+                out.push(s);
+            }
+        }
+        out.push(c);
+    }
+    out.extend(slow);
     out
 }
 
@@ -577,10 +925,46 @@ mod raw {
 #[derive(Clone)]
 struct WhoAmI {
     id: usize,
+    /// tells the script that a `Hold` request has reached the handler of connection `id`
+    arrived: tokio::sync::mpsc::UnboundedSender<usize>,
 }
 
 impl tonic::server::NamedService for WhoAmI {
     const NAME: &'static str = "verif.WhoAmI";
+}
+
+struct UnaryFn<F>(F);
+impl<F, Fut> tonic::server::UnaryService<Vec<u8>> for UnaryFn<F>
+where
+    F: FnMut(tonic::Request<Vec<u8>>) -> Fut,
+    Fut: Future<Output = Result<tonic::Response<Vec<u8>>, tonic::Status>>,
+{
+    type Response = Vec<u8>;
+    type Future = Fut;
+    fn call(&mut self, request: tonic::Request<Vec<u8>>) -> Fut {
+        (self.0)(request)
+    }
+}
+
+type ItemStream = Pin<Box<dyn futures_core::Stream<Item = Result<Vec<u8>, tonic::Status>> + Send>>;
+struct StreamSvc {
+    id: usize,
+}
+impl tonic::server::ServerStreamingService<Vec<u8>> for StreamSvc {
+    type Response = Vec<u8>;
+    type ResponseStream = ItemStream;
+    type Future = Pin<Box<dyn Future<Output = Result<tonic::Response<ItemStream>, tonic::Status>> + Send>>;
+    fn call(&mut self, request: tonic::Request<Vec<u8>>) -> Self::Future {
+        let id = self.id;
+        Box::pin(async move {
+            use tokio_stream::StreamExt;
+            let mut v = request.into_inner();
+            v.extend_from_slice(format!("@{}", id).as_bytes());
+            let st: ItemStream =
+                Box::pin(tokio_stream::once(Ok::<_, tonic::Status>(v)).chain(tokio_stream::pending()));
+            Ok(tonic::Response::new(st))
+        })
+    }
 }
 
 impl Service<http::Request<tonic::body::Body>> for WhoAmI {
@@ -592,30 +976,43 @@ impl Service<http::Request<tonic::body::Body>> for WhoAmI {
     }
     fn call(&mut self, req: http::Request<tonic::body::Body>) -> Self::Future {
         let id = self.id;
+        let arrived = self.arrived.clone();
         Box::pin(async move {
             let mut grpc = tonic::server::Grpc::new(raw::RawCodec);
-            struct H<F>(F);
-            impl<F, Fut> tonic::server::UnaryService<Vec<u8>> for H<F>
-            where
-                F: FnMut(tonic::Request<Vec<u8>>) -> Fut,
-                Fut: Future<Output = Result<tonic::Response<Vec<u8>>, tonic::Status>>,
-            {
-                type Response = Vec<u8>;
-                type Future = Fut;
-                fn call(&mut self, request: tonic::Request<Vec<u8>>) -> Fut {
-                    (self.0)(request)
+            let res = match req.uri().path() {
+                // answers "<request>@<connection id>"
+                "/verif.WhoAmI/Who" => {
+                    grpc.unary(
+                        UnaryFn(move |r: tonic::Request<Vec<u8>>| async move {
+                            let mut v = r.into_inner();
+                            v.extend_from_slice(format!("@{}", id).as_bytes());
+                            Ok::<_, tonic::Status>(tonic::Response::new(v))
+                        }),
+                        req,
+                    )
+                    .await
                 }
-            }
-            let res = grpc
-                .unary(
-                    H(move |r: tonic::Request<Vec<u8>>| async move {
-                        let mut v = r.into_inner();
-                        v.extend_from_slice(format!("@{}", id).as_bytes());
-                        Ok::<_, tonic::Status>(tonic::Response::new(v))
-                    }),
-                    req,
-                )
-                .await;
+                // tells the script it has arrived and never answers
+                "/verif.WhoAmI/Hold" => {
+                    grpc.unary(
+                        UnaryFn(move |_r: tonic::Request<Vec<u8>>| {
+                            let arrived = arrived.clone();
+                            async move {
+                                let _ = arrived.send(id);
+                                std::future::pending::<()>().await;
+                                Err::<tonic::Response<Vec<u8>>, _>(tonic::Status::internal("unreachable"))
+                            }
+                        }),
+                        req,
+                    )
+                    .await
+                }
+                // one message "<request>@<connection id>", then silence
+                "/verif.WhoAmI/Stream" => {
+                    grpc.server_streaming(StreamSvc { id }, req).await
+                }
+                _ => tonic::Status::unimplemented("no such method").into_http(),
+            };
             Ok(res)
         })
     }
@@ -628,6 +1025,8 @@ struct World {
     cables: Vec<(usize, tokio::task::JoinHandle<()>)>,
     /// graceful-shutdown triggers of the servers behind those connections
     shutdowns: Vec<tokio::sync::oneshot::Sender<()>>,
+    /// handed to every server: `Hold` requests announce themselves here
+    arrived: tokio::sync::mpsc::UnboundedSender<usize>,
 }
 
 #[derive(Clone)]
@@ -658,13 +1057,14 @@ impl Service<http::Uri> for ScriptConnector {
                     let (mut cable_b, server_io) = tokio::io::duplex(16 * 1024);
                     // the peer: a real tonic server serving exactly this connection
                     let (stop_tx, stop_rx) = tokio::sync::oneshot::channel::<()>();
+                    let arrived = world.lock().unwrap().arrived.clone();
                     tokio::spawn(async move {
                         use tokio_stream::StreamExt;
                         // one connection, then nothing more (the listener stays open)
                         let incoming = tokio_stream::once(Ok::<_, std::io::Error>(server_io))
                             .chain(tokio_stream::pending());
                         let _ = tonic::transport::Server::builder()
-                            .add_service(WhoAmI { id })
+                            .add_service(WhoAmI { id, arrived })
                             .serve_with_incoming_shutdown(incoming, async move {
                                 let _ = stop_rx.await;
                             })
@@ -711,14 +1111,51 @@ fn attempt_in(text: &str) -> String {
 
 const QUIESCE: Duration = Duration::from_millis(50);
 
-fn run_e2e(lazy: bool, outcomes: &str, ops: &str, with_timeout: bool) -> String {
+/// The deadline a script letter stands for.
+fn deadline_of(c: char) -> Option<Duration> {
+    match c {
+        'z' => Some(Duration::ZERO),
+        'n' => Some(Duration::from_nanos(1)),
+        's' => Some(Duration::from_millis(20)),
+        'l' => Some(Duration::from_secs(3600)),
+        _ => None,
+    }
+}
+
+/// How one finished call is reported.
+fn call_tok(r: Result<Result<String, (tonic::Status, String)>, ()>, a: usize) -> (String, bool) {
+    match r {
+        Err(()) => (format!("c:hang:a{}", a), true),
+        Ok(Ok(body)) => match body.strip_prefix("hi@") {
+            Some(id) => (format!("c:resp{}:a{}", id, a), false),
+            None => (format!("c:garbled:a{}", a), false),
+        },
+        Ok(Err((st, dbg))) => {
+            if std::env::var("C14_DEBUG").is_ok() {
+                eprintln!("{}", dbg);
+            }
+            if st.code() == tonic::Code::Cancelled && st.message() == "Timeout expired" {
+                // the call's own deadline (GrpcTimeout), not a connection failure
+                (format!("c:exp:a{}", a), false)
+            } else {
+                (format!("c:err{}:f{}:a{}", st.code() as i32, attempt_in(&dbg), a), false)
+            }
+        }
+    }
+}
+
+fn run_e2e(lazy: bool, outcomes: &str, ops: &str, with_timeout: bool, opts: &str) -> String {
+    let endpoint_timeout: Option<Duration> = opts.chars().find_map(deadline_of);
+    let (conc_limit, rate_limit) = (opts.contains('q'), opts.contains('r'));
     let rt = paused_rt();
     rt.block_on(async move {
+        let (arrived_tx, mut arrived_rx) = tokio::sync::mpsc::unbounded_channel::<usize>();
         let world = Arc::new(Mutex::new(World {
             outcomes: outcomes.chars().filter(|c| *c != '-').collect(),
             attempts: 0,
             cables: Vec::new(),
             shutdowns: Vec::new(),
+            arrived: arrived_tx,
         }));
         let connector = ScriptConnector(world.clone());
         let endpoint = tonic::transport::Endpoint::from_static("http://verif.invalid:50051");
@@ -729,6 +1166,14 @@ fn run_e2e(lazy: bool, outcomes: &str, ops: &str, with_timeout: bool) -> String 
         } else {
             endpoint
         };
+        // Endpoint::timeout: the channel-wide deadline GrpcTimeout applies to every call
+        let endpoint = match endpoint_timeout {
+            Some(d) => endpoint.timeout(d),
+            None => endpoint,
+        };
+        // the optional limit layers between GrpcTimeout and Reconnect
+        let endpoint = if conc_limit { endpoint.concurrency_limit(1) } else { endpoint };
+        let endpoint = if rate_limit { endpoint.rate_limit(1, Duration::from_millis(80)) } else { endpoint };
         let mut out: Vec<String> = Vec::new();
         let attempts = |w: &Arc<Mutex<World>>| w.lock().unwrap().attempts;
         let channel = if lazy {
@@ -757,6 +1202,23 @@ fn run_e2e(lazy: bool, outcomes: &str, ops: &str, with_timeout: bool) -> String 
             }
         };
         let mut client = tonic::client::Grpc::new(channel);
+        let cut_cables = |world: &Arc<Mutex<World>>| {
+            let cables: Vec<_> = world.lock().unwrap().cables.drain(..).collect();
+            async move {
+                for (_, c) in cables {
+                    c.abort();
+                    let _ = c.await;
+                }
+            }
+        };
+        let ready_err = |e: tonic::transport::Error| {
+            let dbg = format!("{:?}", e);
+            (tonic::Status::from_error(Box::new(e)), dbg)
+        };
+        let status_err = |st: tonic::Status| {
+            let dbg = format!("{:?} {}", st, source_chain(&st));
+            (st, dbg)
+        };
         for op in ops.chars().filter(|c| *c != '-') {
             match op {
                 'g' => {
@@ -770,47 +1232,194 @@ fn run_e2e(lazy: bool, outcomes: &str, ops: &str, with_timeout: bool) -> String 
                 }
                 'd' => {
                     // the peer drops every established connection
-                    let cables: Vec<_> = world.lock().unwrap().cables.drain(..).collect();
-                    for (_, c) in cables {
-                        c.abort();
-                        let _ = c.await;
-                    }
+                    cut_cables(&world).await;
                     tokio::time::sleep(QUIESCE).await;
                     out.push("d".into());
                 }
-                _ => {
+                'p' => {
+                    // two callers at the same moment: both requests are handed to the channel
+                    // (first A, then B) before either result is awaited
+                    let mut ca = client.clone();
+                    let mut cb = client.clone();
                     let fut = async {
-                        client.ready().await.map_err(|e| {
-                            let dbg = format!("{:?}", e);
-                            (tonic::Status::from_error(Box::new(e)), dbg)
-                        })?;
+                        let ra = ca.ready().await.map_err(ready_err);
+                        let rb = cb.ready().await.map_err(ready_err);
                         let path = http::uri::PathAndQuery::from_static("/verif.WhoAmI/Who");
-                        client
-                            .unary::<Vec<u8>, Vec<u8>, _>(tonic::Request::new(b"hi".to_vec()), path, raw::RawCodec)
-                            .await
-                            .map_err(|st| {
-                                let dbg = format!("{:?} {}", st, source_chain(&st));
-                                (st, dbg)
-                            })
+                        let fa = async {
+                            ra?;
+                            ca.unary::<Vec<u8>, Vec<u8>, _>(tonic::Request::new(b"hi".to_vec()), path.clone(), raw::RawCodec)
+                                .await
+                                .map(|resp| String::from_utf8_lossy(resp.get_ref()).to_string())
+                                .map_err(status_err)
+                        };
+                        let fb = async {
+                            rb?;
+                            cb.unary::<Vec<u8>, Vec<u8>, _>(tonic::Request::new(b"hi".to_vec()), path.clone(), raw::RawCodec)
+                                .await
+                                .map(|resp| String::from_utf8_lossy(resp.get_ref()).to_string())
+                                .map_err(status_err)
+                        };
+                        // join! polls `fa` first: A's request is queued before B's
+                        tokio::join!(fa, fb)
                     };
                     let r = tokio::time::timeout(WATCHDOG, fut).await;
                     tokio::time::sleep(QUIESCE).await;
                     let a = attempts(&world);
                     match r {
                         Err(_) => {
-                            out.push(format!("c:hang:a{}", a));
+                            out.push(format!("p=hang=hang=a{}", a));
                             break;
                         }
-                        Ok(Ok(resp)) => {
-                            let body = String::from_utf8_lossy(resp.get_ref()).to_string();
-                            match body.strip_prefix("hi@") {
-                                Some(id) => out.push(format!("c:resp{}:a{}", id, a)),
-                                None => out.push(format!("c:garbled:a{}", a)),
+                        Ok((ra, rb)) => {
+                            let sub = |r: Result<String, (tonic::Status, String)>| {
+                                let (t, _) = call_tok(Ok(r), a);
+                                // "c:<what>[:f<k>]:a<n>" → "<what>[:f<k>]"
+                                let inner = t.strip_prefix("c:").unwrap_or(&t);
+                                match inner.rfind(":a") {
+                                    Some(p) => inner[..p].to_string(),
+                                    None => inner.to_string(),
+                                }
+                            };
+                            out.push(format!("p={}={}=a{}", sub(ra), sub(rb), a));
+                        }
+                    }
+                }
+                'i' => {
+                    // a unary call that is in flight (request delivered to the handler, no
+                    // response) when the peer drops the connection
+                    while arrived_rx.try_recv().is_ok() {}
+                    let fut = async {
+                        client.ready().await.map_err(ready_err)?;
+                        let path = http::uri::PathAndQuery::from_static("/verif.WhoAmI/Hold");
+                        client
+                            .unary::<Vec<u8>, Vec<u8>, _>(tonic::Request::new(b"hi".to_vec()), path, raw::RawCodec)
+                            .await
+                            .map(|resp| String::from_utf8_lossy(resp.get_ref()).to_string())
+                            .map_err(status_err)
+                    };
+                    tokio::pin!(fut);
+                    let first = tokio::time::timeout(WATCHDOG, async {
+                        tokio::select! {
+                            biased;
+                            r = &mut fut => Ok(r),
+                            id = arrived_rx.recv() => Err(id),
+                        }
+                    })
+                    .await;
+                    let (tok, stop) = match first {
+                        Err(_) => (format!("c:hang:a{}", attempts(&world)), true),
+                        // the call ended before it reached a handler (no connection could be made)
+                        Ok(Ok(r)) => {
+                            tokio::time::sleep(QUIESCE).await;
+                            call_tok(Ok(r), attempts(&world))
+                        }
+                        Ok(Err(id)) => {
+                            cut_cables(&world).await;
+                            // must resolve by itself, in bounded (virtual) time
+                            let r = tokio::time::timeout(WATCHDOG, &mut fut).await;
+                            tokio::time::sleep(QUIESCE).await;
+                            let a = attempts(&world);
+                            match r {
+                                Err(_) => (format!("c:hang:a{}", a), true),
+                                Ok(Ok(_)) => (format!("c:garbled:a{}", a), false),
+                                Ok(Err((st, dbg))) => {
+                                    if std::env::var("C14_DEBUG").is_ok() {
+                                        eprintln!("in-flight unary: code {:?}: {}", st.code(), dbg);
+                                    }
+                                    (format!("c:lost{}:a{}", id.unwrap_or(0), a), false)
+                                }
                             }
                         }
-                        Ok(Err((st, dbg))) => {
-                            if std::env::var("C14_DEBUG").is_ok() { eprintln!("{}", dbg); } out.push(format!("c:err{}:f{}:a{}", st.code() as i32, attempt_in(&dbg), a));
+                    };
+                    out.push(tok);
+                    if stop {
+                        break;
+                    }
+                }
+                'j' => {
+                    // a server-streaming call: first message received, then the peer drops the
+                    // connection in the middle of the response body
+                    let fut = async {
+                        client.ready().await.map_err(ready_err)?;
+                        let path = http::uri::PathAndQuery::from_static("/verif.WhoAmI/Stream");
+                        client
+                            .server_streaming::<Vec<u8>, Vec<u8>, _>(tonic::Request::new(b"hi".to_vec()), path, raw::RawCodec)
+                            .await
+                            .map_err(status_err)
+                    };
+                    let started = tokio::time::timeout(WATCHDOG, fut).await;
+                    let (tok, stop) = match started {
+                        Err(_) => (format!("c:hang:a{}", attempts(&world)), true),
+                        Ok(Err(e)) => {
+                            tokio::time::sleep(QUIESCE).await;
+                            call_tok(Ok(Err(e)), attempts(&world))
                         }
+                        Ok(Ok(resp)) => {
+                            let mut stream = resp.into_inner();
+                            match tokio::time::timeout(WATCHDOG, stream.message()).await {
+                                Err(_) => (format!("c:hang:a{}", attempts(&world)), true),
+                                Ok(Ok(Some(first))) => {
+                                    let body = String::from_utf8_lossy(&first).to_string();
+                                    let id = body.strip_prefix("hi@").and_then(|s| s.parse::<usize>().ok());
+                                    cut_cables(&world).await;
+                                    let r = tokio::time::timeout(WATCHDOG, stream.message()).await;
+                                    tokio::time::sleep(QUIESCE).await;
+                                    let a = attempts(&world);
+                                    match (r, id) {
+                                        (Err(_), _) => (format!("c:hang:a{}", a), true),
+                                        // a clean end of stream or a further message: the
+                                        // truncation went unnoticed
+                                        (Ok(Ok(_)), _) | (_, None) => (format!("c:garbled:a{}", a), false),
+                                        (Ok(Err(st)), Some(id)) => {
+                                            if std::env::var("C14_DEBUG").is_ok() {
+                                                eprintln!("in-flight stream: code {:?}: {:?}", st.code(), st);
+                                            }
+                                            (format!("c:lost{}:a{}", id, a), false)
+                                        }
+                                    }
+                                }
+                                Ok(Ok(None)) => (format!("c:garbled:a{}", attempts(&world)), false),
+                                Ok(Err(st)) => {
+                                    tokio::time::sleep(QUIESCE).await;
+                                    call_tok(Ok(Err(status_err(st))), attempts(&world))
+                                }
+                            }
+                        }
+                    };
+                    out.push(tok);
+                    if stop {
+                        break;
+                    }
+                }
+                _ => {
+                    // an ordinary unary call, possibly with a per-call deadline
+                    let fut = async {
+                        client.ready().await.map_err(ready_err)?;
+                        let path = http::uri::PathAndQuery::from_static("/verif.WhoAmI/Who");
+                        let mut req = tonic::Request::new(b"hi".to_vec());
+                        if let Some(d) = deadline_of(op) {
+                            req.set_timeout(d);
+                        }
+                        client
+                            .unary::<Vec<u8>, Vec<u8>, _>(req, path, raw::RawCodec)
+                            .await
+                            .map(|resp| String::from_utf8_lossy(resp.get_ref()).to_string())
+                            .map_err(status_err)
+                    };
+                    let r = tokio::time::timeout(WATCHDOG, fut).await.map_err(|_| ());
+                    tokio::time::sleep(QUIESCE).await;
+                    let (mut tok, stop) = call_tok(r, attempts(&world));
+                    // A call whose effective deadline is zero races its own timers (the
+                    // client's and the peer's GrpcTimeout) against the answer; which of them
+                    // wins is not the property's business: "answered" and "cut off by its
+                    // deadline" both mean the call got as far as a live connection.
+                    let zero = deadline_of(op) == Some(Duration::ZERO) || endpoint_timeout == Some(Duration::ZERO);
+                    if zero && tok.starts_with("c:resp") {
+                        tok = format!("c:exp:a{}", attempts(&world));
+                    }
+                    out.push(tok);
+                    if stop {
+                        break;
                     }
                 }
             }
@@ -829,6 +1438,486 @@ fn source_chain(e: &dyn std::error::Error) -> String {
     s
 }
 
+// ------------------------------------------------------------------------------------------
+// cls / e2x: error chains
+// ------------------------------------------------------------------------------------------
+
+type BoxError = Box<dyn std::error::Error + Send + Sync + 'static>;
+
+const IO_KINDS: &[(&str, std::io::ErrorKind)] = {
+    use std::io::ErrorKind::*;
+    &[
+        ("NotFound", NotFound),
+        ("PermissionDenied", PermissionDenied),
+        ("ConnectionRefused", ConnectionRefused),
+        ("ConnectionReset", ConnectionReset),
+        ("HostUnreachable", HostUnreachable),
+        ("NetworkUnreachable", NetworkUnreachable),
+        ("ConnectionAborted", ConnectionAborted),
+        ("NotConnected", NotConnected),
+        ("AddrInUse", AddrInUse),
+        ("AddrNotAvailable", AddrNotAvailable),
+        ("NetworkDown", NetworkDown),
+        ("BrokenPipe", BrokenPipe),
+        ("AlreadyExists", AlreadyExists),
+        ("WouldBlock", WouldBlock),
+        ("NotADirectory", NotADirectory),
+        ("IsADirectory", IsADirectory),
+        ("DirectoryNotEmpty", DirectoryNotEmpty),
+        ("ReadOnlyFilesystem", ReadOnlyFilesystem),
+        ("StaleNetworkFileHandle", StaleNetworkFileHandle),
+        ("InvalidInput", InvalidInput),
+        ("InvalidData", InvalidData),
+        ("TimedOut", TimedOut),
+        ("WriteZero", WriteZero),
+        ("StorageFull", StorageFull),
+        ("NotSeekable", NotSeekable),
+        ("QuotaExceeded", QuotaExceeded),
+        ("FileTooLarge", FileTooLarge),
+        ("ResourceBusy", ResourceBusy),
+        ("ExecutableFileBusy", ExecutableFileBusy),
+        ("Deadlock", Deadlock),
+        ("CrossesDevices", CrossesDevices),
+        ("TooManyLinks", TooManyLinks),
+        ("InvalidFilename", InvalidFilename),
+        ("ArgumentListTooLong", ArgumentListTooLong),
+        ("Interrupted", Interrupted),
+        ("Unsupported", Unsupported),
+        ("UnexpectedEof", UnexpectedEof),
+        ("OutOfMemory", OutOfMemory),
+        ("Other", Other),
+    ]
+};
+
+/// A user's own error type, optionally with a source.
+#[derive(Debug)]
+struct Wrap {
+    id: usize,
+    source: Option<BoxError>,
+}
+impl std::fmt::Display for Wrap {
+    fn fmt(&self, f: &mut std::fmt::Formatter<'_>) -> std::fmt::Result {
+        write!(f, "custom error {}", self.id)
+    }
+}
+impl std::error::Error for Wrap {
+    fn source(&self) -> Option<&(dyn std::error::Error + 'static)> {
+        self.source.as_ref().map(|e| &**e as &(dyn std::error::Error + 'static))
+    }
+}
+
+/// The error of a real hyper HTTP/2 client handshake on a transport whose far end is gone.
+async fn real_handshake_error() -> Option<hyper::Error> {
+    let (io, far) = tokio::io::duplex(1024);
+    drop(far);
+    hyper::client::conn::http2::Builder::new(hyper_util::rt::TokioExecutor::new())
+        .handshake::<_, tonic::body::Body>(hyper_util::rt::TokioIo::new(io))
+        .await
+        .err()
+}
+
+/// Build the error whose `source()` walk is the token list (outermost first); `None` = the
+/// tokens do not describe something that can be built (leaf in the middle, `C` with no cause).
+async fn build_chain(toks: &[&str]) -> Option<BoxError> {
+    let mut cur: Option<BoxError> = None;
+    for t in toks.iter().rev() {
+        let inner = cur.take();
+        let next: BoxError = if *t == "C" {
+            Box::new(tonic::ConnectError(inner?))
+        } else if let Some(id) = t.strip_prefix('W') {
+            Box::new(Wrap { id: id.parse().ok()?, source: inner })
+        } else if let Some(k) = t.strip_prefix("I.") {
+            let kind = IO_KINDS.iter().find(|(n, _)| *n == k)?.1;
+            match inner {
+                // io::Error::source() is the source of the wrapped error, not the wrapped error
+                Some(inner) => Box::new(std::io::Error::new(kind, Wrap { id: 0, source: Some(inner) })),
+                None => Box::new(std::io::Error::new(kind, "scripted io error")),
+            }
+        } else if inner.is_some() {
+            return None;
+        } else if *t == "T" {
+            Box::new(tonic::TimeoutExpired(()))
+        } else if *t == "L" {
+            Box::new(tokio_rustls::rustls::Error::General("scripted tls error".into()))
+        } else if *t == "Yh" {
+            Box::new(real_handshake_error().await?)
+        } else if let Some(r) = t.strip_prefix("H2.") {
+            Box::new(h2::Error::from(h2::Reason::from(r.parse::<u32>().ok()?)))
+        } else if let Some(c) = t.strip_prefix('S') {
+            let c: i32 = c.parse().ok()?;
+            if !(0..=16).contains(&c) {
+                return None;
+            }
+            Box::new(tonic::Status::new(tonic::Code::from_i32(c), "scripted status"))
+        } else {
+            return None;
+        };
+        cur = Some(next);
+    }
+    cur
+}
+
+/// The chain as an independent walk over `source()` sees it (by `downcast_ref`).
+fn walk(e: &(dyn std::error::Error + 'static)) -> String {
+    let mut toks: Vec<String> = Vec::new();
+    let mut cur = Some(e);
+    while let Some(x) = cur {
+        let t = if let Some(s) = x.downcast_ref::<tonic::Status>() {
+            format!("S{}", s.code() as i32)
+        } else if x.downcast_ref::<tonic::TimeoutExpired>().is_some() {
+            "T".into()
+        } else if x.downcast_ref::<tonic::ConnectError>().is_some() {
+            "C".into()
+        } else if let Some(h) = x.downcast_ref::<hyper::Error>() {
+            format!("Y.{}{}", h.is_timeout() as u8, h.is_canceled() as u8)
+        } else if let Some(h) = x.downcast_ref::<h2::Error>() {
+            match h.reason() {
+                Some(r) => format!("H2.{}", u32::from(r)),
+                None => "H2.-".into(),
+            }
+        } else if let Some(i) = x.downcast_ref::<std::io::Error>() {
+            format!("I.{:?}", i.kind())
+        } else if x.downcast_ref::<tokio_rustls::rustls::Error>().is_some() {
+            "L".into()
+        } else if x.downcast_ref::<tonic::transport::Error>().is_some() {
+            "X".into()
+        } else if let Some(w) = x.downcast_ref::<Wrap>() {
+            format!("W{}", w.id)
+        } else {
+            "W99".into()
+        };
+        toks.push(t);
+        if toks.len() >= 64 {
+            break;
+        }
+        cur = x.source();
+    }
+    if toks.is_empty() {
+        "-".into()
+    } else {
+        toks.join(">")
+    }
+}
+
+fn run_cls(chain: &str) -> String {
+    let toks: Vec<&str> = chain.split('>').collect();
+    let rt = paused_rt();
+    rt.block_on(async move {
+        match build_chain(&toks).await {
+            None => "bad-case".into(),
+            Some(err) => {
+                let w = walk(&*err);
+                let st = tonic::Status::from_error(err);
+                format!("code={} walk={}", st.code() as i32, w)
+            }
+        }
+    })
+}
+
+#[derive(Clone)]
+struct FailConnector {
+    cause: Arc<Vec<String>>,
+    attempts: Arc<std::sync::atomic::AtomicUsize>,
+}
+
+impl Service<http::Uri> for FailConnector {
+    type Response = hyper_util::rt::TokioIo<tokio::io::DuplexStream>;
+    type Error = BoxError;
+    type Future = Pin<Box<dyn Future<Output = Result<Self::Response, Self::Error>> + Send>>;
+    fn poll_ready(&mut self, _cx: &mut Context<'_>) -> Poll<Result<(), Self::Error>> {
+        Poll::Ready(Ok(()))
+    }
+    fn call(&mut self, _uri: http::Uri) -> Self::Future {
+        self.attempts.fetch_add(1, std::sync::atomic::Ordering::SeqCst);
+        let cause = self.cause.clone();
+        Box::pin(async move {
+            let toks: Vec<&str> = cause.iter().map(|s| s.as_str()).collect();
+            Err(build_chain(&toks).await.expect("checked before"))
+        })
+    }
+}
+
+fn run_e2x(lazy: bool, with_timeout: bool, cause: &str) -> String {
+    let rt = paused_rt();
+    let toks: Vec<String> = cause.split('>').map(|s| s.to_string()).collect();
+    rt.block_on(async move {
+        {
+            let t: Vec<&str> = toks.iter().map(|s| s.as_str()).collect();
+            if build_chain(&t).await.is_none() {
+                return "bad-case".to_string();
+            }
+        }
+        let attempts = Arc::new(std::sync::atomic::AtomicUsize::new(0));
+        let connector = FailConnector { cause: Arc::new(toks), attempts: attempts.clone() };
+        let n = || attempts.load(std::sync::atomic::Ordering::SeqCst);
+        let endpoint = tonic::transport::Endpoint::from_static("http://verif.invalid:50051");
+        let endpoint = if with_timeout { endpoint.connect_timeout(Duration::from_secs(3)) } else { endpoint };
+        let mut out: Vec<String> = Vec::new();
+        let channel = if lazy {
+            let ch = endpoint.connect_with_connector_lazy(connector);
+            tokio::time::sleep(QUIESCE).await;
+            out.push(format!("build:ok:a{}", n()));
+            ch
+        } else {
+            match tokio::time::timeout(WATCHDOG, endpoint.connect_with_connector(connector)).await {
+                Err(_) => return format!("build:hang:a{}", n()),
+                Ok(Ok(_)) => return format!("build:ok:a{}", n()),
+                Ok(Err(e)) => {
+                    let w = walk(&e);
+                    let st = tonic::Status::from_error(Box::new(e));
+                    return format!("build:err{}:a{}:walk={}", st.code() as i32, n(), w);
+                }
+            }
+        };
+        let mut client = tonic::client::Grpc::new(channel);
+        for _ in 0..2 {
+            let fut = async {
+                client.ready().await.map_err(|e| {
+                    let w = walk(&e);
+                    (tonic::Status::from_error(Box::new(e)), w)
+                })?;
+                let path = http::uri::PathAndQuery::from_static("/verif.WhoAmI/Who");
+                client
+                    .unary::<Vec<u8>, Vec<u8>, _>(tonic::Request::new(b"hi".to_vec()), path, raw::RawCodec)
+                    .await
+                    .map_err(|st| {
+                        let w = match std::error::Error::source(&st) {
+                            Some(s) => walk(s),
+                            None => "-".into(),
+                        };
+                        (st, w)
+                    })
+            };
+            let r = tokio::time::timeout(WATCHDOG, fut).await;
+            tokio::time::sleep(QUIESCE).await;
+            match r {
+                Err(_) => {
+                    out.push(format!("c:hang:a{}", n()));
+                    break;
+                }
+                Ok(Ok(_)) => out.push(format!("c:garbled:a{}", n())),
+                Ok(Err((st, w))) => out.push(format!("c:err{}:a{}:walk={}", st.code() as i32, n(), w)),
+            }
+        }
+        out.join(" ")
+    })
+}
+
+// ------------------------------------------------------------------------------------------
+// net: Endpoint::connect() / connect_lazy() against a real loopback TCP port or unix socket
+// ------------------------------------------------------------------------------------------
+
+static NET_SEQ: std::sync::atomic::AtomicUsize = std::sync::atomic::AtomicUsize::new(0);
+
+type Cables = Arc<Mutex<Vec<tokio::task::JoinHandle<()>>>>;
+
+/// A freshly accepted transport stream gets a real tonic server (generation `gen`) behind a cable
+/// task that the script can cut.
+fn attach_peer<S>(mut stream: S, gen: usize, cables: &Cables, arrived: &tokio::sync::mpsc::UnboundedSender<usize>)
+where
+    S: tokio::io::AsyncRead + tokio::io::AsyncWrite + Unpin + Send + 'static,
+{
+    let (mut near, far) = tokio::io::duplex(16 * 1024);
+    let arrived = arrived.clone();
+    tokio::spawn(async move {
+        use tokio_stream::StreamExt;
+        let incoming = tokio_stream::once(Ok::<_, std::io::Error>(far)).chain(tokio_stream::pending());
+        let _ = tonic::transport::Server::builder()
+            .add_service(WhoAmI { id: gen, arrived })
+            .serve_with_incoming(incoming)
+            .await;
+    });
+    let cable = tokio::spawn(async move {
+        let _ = tokio::io::copy_bidirectional(&mut stream, &mut near).await;
+    });
+    cables.lock().unwrap().push(cable);
+}
+
+enum NetAddr {
+    /// port, and while no server listens: the bound, non-listening socket that keeps the port
+    Tcp(u16, Option<tokio::net::TcpSocket>),
+    Uds(std::path::PathBuf),
+}
+
+fn reserve_tcp(port: u16) -> Option<tokio::net::TcpSocket> {
+    let sock = tokio::net::TcpSocket::new_v4().ok()?;
+    sock.set_reuseaddr(true).ok()?;
+    sock.bind(std::net::SocketAddr::from(([127, 0, 0, 1], port))).ok()?;
+    Some(sock)
+}
+
+const NET_SETTLE: Duration = Duration::from_millis(25);
+const NET_WATCHDOG: Duration = Duration::from_secs(5);
+
+fn run_net(transport: &str, lazy: bool, script: &str) -> String {
+    let ops: Vec<char> = script.chars().collect();
+    let bpos = match ops.iter().position(|c| *c == 'b') {
+        Some(p) => p,
+        None => return "bad-case".into(),
+    };
+    if ops.iter().filter(|c| **c == 'b').count() != 1
+        || ops.iter().any(|c| !"ukxbc".contains(*c))
+        || ops[..bpos].contains(&'c')
+    {
+        return "bad-case".into();
+    }
+    let rt = tokio::runtime::Builder::new_current_thread().enable_all().build().unwrap();
+    let out = rt.block_on(async move {
+        let (arrived, _arrived_rx) = tokio::sync::mpsc::unbounded_channel::<usize>();
+        let cables: Cables = Arc::new(Mutex::new(Vec::new()));
+        let mut addr = if transport == "tcp" {
+            let sock = match reserve_tcp(0) {
+                Some(s) => s,
+                None => return "env:cannot-bind".to_string(),
+            };
+            let port = sock.local_addr().map(|a| a.port()).unwrap_or(0);
+            NetAddr::Tcp(port, Some(sock))
+        } else {
+            let n = NET_SEQ.fetch_add(1, std::sync::atomic::Ordering::SeqCst);
+            NetAddr::Uds(std::env::temp_dir().join(format!("verif-c14-{}-{}.sock", std::process::id(), n)))
+        };
+        let uri = match &addr {
+            NetAddr::Tcp(port, _) => format!("http://127.0.0.1:{}", port),
+            NetAddr::Uds(path) => format!("unix:{}", path.display()),
+        };
+        let endpoint = match tonic::transport::Endpoint::from_shared(uri) {
+            Ok(e) => e,
+            Err(_) => return "env:bad-uri".to_string(),
+        };
+        let mut gen = 0usize;
+        let mut accept: Option<tokio::task::JoinHandle<()>> = None;
+        let mut client: Option<tonic::client::Grpc<tonic::transport::Channel>> = None;
+        let mut out: Vec<String> = Vec::new();
+        for op in ops {
+            match op {
+                'u' => {
+                    if accept.is_some() {
+                        continue;
+                    }
+                    gen += 1;
+                    let g = gen;
+                    let cables = cables.clone();
+                    let arrived = arrived.clone();
+                    match &mut addr {
+                        NetAddr::Tcp(port, holder) => {
+                            let sock = match holder.take().or_else(|| reserve_tcp(*port)) {
+                                Some(s) => s,
+                                None => return "env:cannot-bind".to_string(),
+                            };
+                            let listener = match sock.listen(1024) {
+                                Ok(l) => l,
+                                Err(_) => return "env:cannot-listen".to_string(),
+                            };
+                            accept = Some(tokio::spawn(async move {
+                                while let Ok((stream, _)) = listener.accept().await {
+                                    let _ = stream.set_nodelay(true);
+                                    attach_peer(stream, g, &cables, &arrived);
+                                }
+                            }));
+                        }
+                        NetAddr::Uds(path) => {
+                            let _ = std::fs::remove_file(&*path);
+                            let listener = match tokio::net::UnixListener::bind(&*path) {
+                                Ok(l) => l,
+                                Err(_) => return "env:cannot-bind".to_string(),
+                            };
+                            accept = Some(tokio::spawn(async move {
+                                while let Ok((stream, _)) = listener.accept().await {
+                                    attach_peer(stream, g, &cables, &arrived);
+                                }
+                            }));
+                        }
+                    }
+                }
+                'k' | 'x' => {
+                    if let Some(a) = accept.take() {
+                        a.abort();
+                        let _ = a.await;
+                    }
+                    let cs: Vec<_> = cables.lock().unwrap().drain(..).collect();
+                    for c in cs {
+                        c.abort();
+                        let _ = c.await;
+                    }
+                    match &mut addr {
+                        NetAddr::Tcp(port, holder) => {
+                            if holder.is_none() {
+                                *holder = reserve_tcp(*port);
+                            }
+                        }
+                        NetAddr::Uds(path) => {
+                            if op == 'x' {
+                                let _ = std::fs::remove_file(&*path);
+                            }
+                        }
+                    }
+                    // let the client side see the FIN / RST
+                    tokio::time::sleep(NET_SETTLE).await;
+                }
+                'b' => {
+                    let channel = if lazy {
+                        out.push("build:ok".into());
+                        endpoint.connect_lazy()
+                    } else {
+                        match tokio::time::timeout(NET_WATCHDOG, endpoint.connect()).await {
+                            Err(_) => {
+                                out.push("build:hang".into());
+                                break;
+                            }
+                            Ok(Err(e)) => {
+                                let st = tonic::Status::from_error(Box::new(e));
+                                out.push(format!("build:err{}", st.code() as i32));
+                                break;
+                            }
+                            Ok(Ok(ch)) => {
+                                out.push("build:ok".into());
+                                ch
+                            }
+                        }
+                    };
+                    client = Some(tonic::client::Grpc::new(channel));
+                }
+                _ => {
+                    let client = match client.as_mut() {
+                        Some(c) => c,
+                        None => break,
+                    };
+                    let fut = async {
+                        client.ready().await.map_err(|e| tonic::Status::from_error(Box::new(e)))?;
+                        let path = http::uri::PathAndQuery::from_static("/verif.WhoAmI/Who");
+                        client
+                            .unary::<Vec<u8>, Vec<u8>, _>(tonic::Request::new(b"hi".to_vec()), path, raw::RawCodec)
+                            .await
+                            .map(|resp| String::from_utf8_lossy(resp.get_ref()).to_string())
+                    };
+                    match tokio::time::timeout(NET_WATCHDOG, fut).await {
+                        Err(_) => {
+                            out.push("c:hang".into());
+                            break;
+                        }
+                        Ok(Ok(body)) => match body.strip_prefix("hi@") {
+                            Some(g) => out.push(format!("c:resp{}", g)),
+                            None => out.push("c:garbled".into()),
+                        },
+                        Ok(Err(st)) => {
+                            if std::env::var("C14_DEBUG").is_ok() {
+                                eprintln!("net call: {:?} {}", st, source_chain(&st));
+                            }
+                            out.push(format!("c:err{}", st.code() as i32));
+                        }
+                    }
+                }
+            }
+        }
+        if let NetAddr::Uds(path) = &addr {
+            let _ = std::fs::remove_file(path);
+        }
+        out.join(" ")
+    });
+    drop(rt);
+    out
+}
+
 pub fn execute(case: &str) -> String {
     let t: Vec<&str> = case.split(' ').collect();
     match t.as_slice() {
@@ -837,8 +1926,14 @@ pub fn execute(case: &str) -> String {
             Ok(n) => run_sess(*m == "L", env, n),
             Err(_) => "bad-case".into(),
         },
-        ["e2e", m, outs, ops] if *m == "L" || *m == "E" => run_e2e(*m == "L", outs, ops, true),
-        ["e2n", m, outs, ops] if *m == "L" || *m == "E" => run_e2e(*m == "L", outs, ops, false),
+        ["e2e", m, outs, ops] if *m == "L" || *m == "E" => run_e2e(*m == "L", outs, ops, true, ""),
+        ["e2n", m, outs, ops] if *m == "L" || *m == "E" => run_e2e(*m == "L", outs, ops, false, ""),
+        ["e2d", m, et, outs, ops] if (*m == "L" || *m == "E") && (*et == "-" || et.chars().all(|c| "znslqr".contains(c))) => {
+            run_e2e(*m == "L", outs, ops, true, if *et == "-" { "" } else { et })
+        }
+        ["net", tr, m, script] if (*tr == "tcp" || *tr == "uds") && (*m == "L" || *m == "E") => run_net(tr, *m == "L", script),
+        ["cls", chain] => run_cls(chain),
+        ["e2x", m, t, cause] if (*m == "L" || *m == "E") && (*t == "t" || *t == "n") => run_e2x(*m == "L", *t == "t", cause),
         _ => "bad-case".into(),
     }
 }
